@@ -243,13 +243,15 @@ func ResolveCall(ci ssa.CallInstruction) Site {
 // Sites lists the call instructions of fn, and of its closures when deep.
 func Sites(fn *ssa.Function, deep bool) []Site {
 	var out []Site
+	seen := map[*ssa.Function]bool{}
 	var walk func(f *ssa.Function)
 	walk = func(f *ssa.Function) {
-		for _, b := range f.Blocks {
-			for _, in := range b.Instrs {
-				if ci, ok := in.(ssa.CallInstruction); ok {
-					out = append(out, ResolveCall(ci))
-				}
+		if seen[f] {
+			return
+		}
+		for _, in := range instrsX(f, seen) {
+			if ci, ok := in.(ssa.CallInstruction); ok {
+				out = append(out, ResolveCall(ci))
 			}
 		}
 		if deep {
@@ -291,6 +293,23 @@ func MatchName(name string, patterns ...string) bool {
 
 // Instrs lists all instructions of fn in block order.
 func Instrs(fn *ssa.Function) []ssa.Instruction {
+	return instrsX(fn, map[*ssa.Function]bool{})
+}
+
+// OwnInstrs is Instrs without the instructions of expanded callees.
+func OwnInstrs(fn *ssa.Function) []ssa.Instruction {
+	var out []ssa.Instruction
+	for _, b := range fn.Blocks {
+		if b == fn.Recover {
+			continue
+		}
+		out = append(out, b.Instrs...)
+	}
+	return out
+}
+
+func instrsX(fn *ssa.Function, seen map[*ssa.Function]bool) []ssa.Instruction {
+	seen[fn] = true
 	var out []ssa.Instruction
 	for _, b := range fn.Blocks {
 		if b == fn.Recover {
@@ -298,7 +317,14 @@ func Instrs(fn *ssa.Function) []ssa.Instruction {
 			// no source statement corresponds to it
 			continue
 		}
-		out = append(out, b.Instrs...)
+		for _, in := range b.Instrs {
+			out = append(out, in)
+			if c, ok := in.(*ssa.Call); ok {
+				if g := expandedCallee(c); g != nil && !seen[g] {
+					out = append(out, instrsX(g, seen)...)
+				}
+			}
+		}
 	}
 	return out
 }
@@ -326,6 +352,46 @@ func Unwrap(v ssa.Value) ssa.Value {
 			v = x.X
 		case *ssa.ChangeInterface:
 			v = x.X
+		case *ssa.Parameter:
+			// a parameter of an expanded callee stands for the argument of its only call
+			site := ExpandedInto(x.Parent())
+			if site == nil {
+				return v
+			}
+			idx := -1
+			for i, p := range x.Parent().Params {
+				if p == x {
+					idx = i
+				}
+			}
+			if idx < 0 || idx >= len(site.Call.Args) {
+				return v
+			}
+			v = site.Call.Args[idx]
+		case *ssa.Call:
+			g := expandedCallee(x)
+			if g == nil || g.Signature.Results().Len() != 1 {
+				return v
+			}
+			rv := singleReturn(g, 0)
+			if rv == nil {
+				return v
+			}
+			v = rv
+		case *ssa.Extract:
+			c, ok := x.Tuple.(*ssa.Call)
+			if !ok {
+				return v
+			}
+			g := expandedCallee(c)
+			if g == nil {
+				return v
+			}
+			rv := singleReturn(g, x.Index)
+			if rv == nil {
+				return v
+			}
+			v = rv
 		default:
 			return v
 		}
@@ -440,6 +506,20 @@ func instrIndex(in ssa.Instruction) int {
 // (same function).
 func Dominates(a, b ssa.Instruction) bool {
 	if a.Parent() != b.Parent() {
+		// one of them may run inside an expanded callee of the other's function
+		if la, always, ok := liftTo(a, b.Parent()); ok {
+			return always && la != b && Dominates(la, b)
+		}
+		if lb, _, ok := liftTo(b, a.Parent()); ok {
+			return a == lb || Dominates(a, lb)
+		}
+		// or both inside expanded callees of a common caller
+		for up := ExpandedInto(a.Parent()); up != nil; up = ExpandedInto(up.Parent()) {
+			if lb, _, ok := liftTo(b, up.Parent()); ok {
+				la, always, _ := liftTo(a, up.Parent())
+				return la != nil && always && la != lb && Dominates(la, lb)
+			}
+		}
 		return false
 	}
 	if a.Block() == b.Block() {
@@ -571,6 +651,10 @@ func FactsAt(b *ssa.BasicBlock) []Fact {
 				out = append(out, Fact{Cond: iff.Cond, Val: k == 0, If: iff})
 			}
 		}
+	}
+	// a block of an expanded callee also runs under whatever holds at its only call
+	if site := ExpandedInto(b.Parent()); site != nil {
+		out = append(out, FactsAt(site.Block())...)
 	}
 	return out
 }
